@@ -898,8 +898,8 @@ func (g *gen) runGenerated(c *Case) {
 		case x < 70:
 			// very large requests only in well-formed scripts (the monitors' fast paths need whole rows)
 			cols, sz, rows, _ := g.request(c.Svcs[s].Kind, malformed && r.Intn(3) == 0, !malformed)
-			if sz <= 0 && rows > 0 {
-				zeroSize = true
+			if kc := cols[keycol[c.Svcs[s].Kind]]; sz <= 0 && len(expand(kc)) > 0 {
+				zeroSize = true // accepted (key column not empty) but accounted with size 0: legitimately never flushed
 			}
 			o = Op{T: "req", S: s, P: rn.nextP, Cols: cols, Sz: sz}
 			rn.nextP++
